@@ -83,6 +83,22 @@ pub fn run(ctx: &mut Ctx) {
         }
         ctx.rng = rng;
     }
+    // issued device keys with a coordinate that begins with a zero octet (00 8x.., 00 0x.. in x, in y): honest responses
+    for shape in 0..4u8 {
+        let mut rng = ctx.rng.clone();
+        let key = ground_key(&mut rng, shape);
+        match scene_with_signing_key(&mut rng, key) {
+            Some(sc) => {
+                let reg = iaca_registry(&sc.pki);
+                deliver(ctx, &format!("device_key_leading_zero:{shape}"), "c05.spec", &sc, &sc.rdr, &reg, "right-root", &Alt::None, &sc.plaintext, None);
+                let mut pt = sc.plaintext.clone();
+                apply(&Alt::DevSigOtherKey, &sc, &mut pt, &mut rng);
+                deliver(ctx, &format!("device_key_leading_zero:{shape}"), "c05.spec", &sc, &sc.rdr, &reg, "right-root", &Alt::DevSigOtherKey, &pt, None);
+            }
+            None => ctx.case(&format!("device_key_leading_zero:{shape}:no-response"), json!({}), ciborium::Value::Null, None, None, false),
+        }
+        ctx.rng = rng;
+    }
     // MSO device keys the reader cannot use: must be reported, never a panic
     for (name, key) in weird_device_keys() {
         let mut rng = ctx.rng.clone();
